@@ -30,7 +30,7 @@ REQUIRED_FEATURES = ["map:builtin", "map:eager", "map:reverse-ordered", "map:uno
                      "map:pool.map", "map:pool.imap", "map:pool.imap_unordered", "chunksize:1", "chunksize:None",
                      "chunksize:nnz+1", "mode:gw", "mode:cis", "mode:trans", "split-pipeline", "via:cli-balance", "history:path-reused",
                      "history:long-lived-object-after-file-regenerated-with-more-pixels",
-                     "cli-balance:ignore-dist:not-a-multiple-of-binsize"]
+                     "cli-balance:ignore-dist:not-a-multiple-of-binsize", "data:signed-integers-cancelling-within-chunks"]
 SHARD_TIMEOUT = {"quick": 1800, "thorough": 7200}
 
 
@@ -283,6 +283,38 @@ def one_history(ctx, shard, i, rng, idx):
         if pool is not None:
             pool.close()
             pool.join()
+    # signed integer data (e.g. a difference map), ONE iteration, no MAD filter: every marginal is an exact integer sum in
+    # any order, so the weights are exactly independent of the chunk size - also when values cancel inside a chunk
+    cid = f"h:{shard['sub']}:{i}:signed"
+    if ctx.want(cid) and n >= 6:
+        with ctx.case(cid, dict(base_desc, data="signed integers with cancelling neighbours", pixels=None)) as c:
+            c.feature("data:signed-integers-cancelling-within-chunks")
+            Ps = {}
+            for (a, b_) in gen.gen_pixels(rng, n, True, "dense"):
+                v = int(rng.integers(1, 9))
+                Ps[(a, b_)] = v if (a + b_) % 2 else -v
+            for a in range(0, n - 1, 3):                     # exact cancellation of adjacent records of one row
+                for b_ in range(a + 1, n - 1, 2):
+                    if (a, b_) in Ps and (a, b_ + 1) in Ps:
+                        Ps[(a, b_ + 1)] = -Ps[(a, b_)]
+            sp = ctx.path()
+            make_cooler(sp, bt, Ps, count_dtype=np.int64)
+            sclr = cooler.Cooler(sp)
+            o = dict(ignore_diags=0, mad_max=0, min_nnz=0, min_count=0, tol=1e-9, max_iters=1, rescale_marginals=False)
+            outs = []
+            for cs in (None, 1, 2, 3, 4, 6, len(Ps)):
+                with np.errstate(all="ignore"):
+                    b_s, _ = cooler.balance_cooler(sclr, chunksize=cs, **o)
+                outs.append((cs, b_s))
+            for cs, b_s in outs[1:]:
+                with np.errstate(all="ignore"):
+                    same = np.array_equal(np.isnan(b_s), np.isnan(outs[0][1])) and \
+                        np.allclose(b_s, outs[0][1], rtol=1e-12, atol=0, equal_nan=True)
+                if not c.check(same, "weights-depend-on-chunking-or-map:signed-integer-data",
+                               f"one iteration on signed integer data: weights with chunksize={cs} differ from chunksize=None",
+                               {"a": outs[0][1], "b": b_s}):
+                    break
+            os.remove(sp)
     cid = f"h:{shard['sub']}:{i}:path-reuse"
     if ctx.want(cid) and n >= 6:
         with ctx.case(cid, dict(base_desc, history="file at the same path replaced by another cooler")) as c:
